@@ -165,7 +165,7 @@ fn gen_data(r: &mut Rng) -> Data {
     let mk = |r: &mut Rng, n: usize| {
         let mut v = Vec::new();
         for _ in 0..n {
-            let t = if r.chance(35) { (iri("s", r.below(4)), Term::Iri("http://e/n".into()), Term::Num(r.below(6) as i64)) }
+            let t = if r.chance(35) { (iri("s", r.below(4)), Term::Iri("http://e/n".into()), Term::Num(r.below(13) as i64)) }
                     else { (iri("s", r.below(4)), iri("p", r.below(2)), iri("s", r.below(4))) };
             if !v.contains(&t) { v.push(t); }
         }
@@ -181,7 +181,7 @@ const NUMVARS: [&str; 2] = ["x", "y"];
 fn gen_triple(r: &mut Rng) -> Elem {
     if r.chance(30) {
         let s = if r.chance(80) { Slot::Var(VARS[r.below(3)].into()) } else { Slot::Const(iri("s", r.below(4))) };
-        let o = if r.chance(85) { Slot::Var(NUMVARS[r.below(2)].into()) } else { Slot::Const(Term::Num(r.below(6) as i64)) };
+        let o = if r.chance(85) { Slot::Var(NUMVARS[r.below(2)].into()) } else { Slot::Const(Term::Num(r.below(13) as i64)) };
         Elem::Triple(s, Slot::Const(Term::Iri("http://e/n".into())), o)
     } else {
         let s = if r.chance(75) { Slot::Var(VARS[r.below(4)].into()) } else { Slot::Const(iri("s", r.below(4))) };
@@ -196,7 +196,7 @@ fn gen_expr(r: &mut Rng, depth: usize) -> Expr {
     }
     if r.chance(50) {
         let op = ["<", ">", "<=", ">=", "=", "!="][r.below(6)];
-        let rhs = if r.chance(70) { Slot::Const(Term::Num(r.below(6) as i64)) } else { Slot::Var(NUMVARS[r.below(2)].into()) };
+        let rhs = if r.chance(70) { Slot::Const(Term::Num(r.below(13) as i64)) } else { Slot::Var(NUMVARS[r.below(2)].into()) };
         Expr::Cmp(NUMVARS[r.below(2)].into(), op, rhs)
     } else {
         let op = ["=", "!="][r.below(2)];
@@ -318,4 +318,212 @@ fn differential() {
         }
     }
     println!("checked {} queries, {} discrepancies", seeds, bad);
+}
+
+
+// ---- modifiers: datasets (FROM / FROM NAMED), GROUP BY aggregates, ORDER BY + LIMIT
+fn cmp_vals(a: &str, b: &str) -> std::cmp::Ordering {
+    match (a.parse::<f64>(), b.parse::<f64>()) { (Ok(x), Ok(y)) => x.partial_cmp(&y).unwrap(), _ => a.cmp(b) }
+}
+#[test]
+fn differential_modifiers() {
+    let seeds: u64 = std::env::var("PROBE_SEEDS").ok().and_then(|v| v.parse().ok()).unwrap_or(400);
+    let start: u64 = std::env::var("PROBE_START").ok().and_then(|v| v.parse().ok()).unwrap_or(1);
+    let mut bad = 0;
+    for seed in start..start + seeds {
+        let mut r = Rng(seed.wrapping_mul(0xD1B54A32D192ED03) | 1);
+        let mut data = gen_data(&mut r);
+        let group = gen_group(&mut r, 1, false);
+        // dataset clause
+        let mut from = String::new();
+        let mode = r.below(4);
+        if mode == 1 || mode == 2 {
+            let mut merged: Vec<(Term, Term, Term)> = Vec::new();
+            let mut named = Vec::new();
+            let nf = r.below(3);
+            for i in 0..nf { let g = format!("http://e/g{}", (seed as usize + i) % 2); from.push_str(&format!("FROM <{}> ", g)); for t in &data.named.iter().find(|(n, _)| *n == g).unwrap().1 { if !merged.contains(t) { merged.push(t.clone()); } } }
+            if mode == 2 || nf == 0 { let g = format!("http://e/g{}", r.below(2)); from.push_str(&format!("FROM NAMED <{}> ", g)); named.push(data.named.iter().find(|(n, _)| *n == g).unwrap().clone()); }
+            data = Data { default: merged, named };
+        }
+        let sols = eval_group(&group, &data, None);
+        let kind = r.below(3);
+        let (q, want, ordered): (String, Vec<Vec<String>>, bool) = if kind == 0 {
+            // aggregates over ?x grouped by ?a: make sure both are bound
+            let agg = ["SUM", "MIN", "MAX", "AVG"][r.below(4)];
+            let mut g2 = group.clone();
+            g2.insert(0, Elem::Triple(Slot::Var("a".into()), Slot::Const(Term::Iri("http://e/n".into())), Slot::Var("x".into())));
+            let sols = eval_group(&g2, &data, None);
+            let mut groups: BTreeMap<String, Vec<i64>> = BTreeMap::new();
+            for s in &sols { if let (Some(a), Some(Term::Num(x))) = (s.get("a"), s.get("x")) { groups.entry(a.out()).or_default().push(*x); } }
+            let grouped = r.chance(70);
+            let fmt = |v: f64| if v.fract() == 0.0 { format!("{}", v as i64) } else { format!("{}", v) };
+            let aggf = |xs: &Vec<i64>| -> String { match agg { "SUM" => fmt(xs.iter().sum::<i64>() as f64), "MIN" => fmt(*xs.iter().min().unwrap() as f64), "MAX" => fmt(*xs.iter().max().unwrap() as f64), _ => fmt(xs.iter().sum::<i64>() as f64 / xs.len() as f64) } };
+            if grouped {
+                let want = groups.iter().map(|(a, xs)| vec![a.clone(), aggf(xs)]).collect();
+                (format!("SELECT ?a {}(?x) AS ?t {}WHERE {} GROUP BY ?a", agg, from, group_text(&g2)), want, false)
+            } else {
+                let all: Vec<i64> = groups.values().flatten().cloned().collect();
+                if all.is_empty() { continue; }
+                (format!("SELECT {}(?x) AS ?t {}WHERE {}", agg, from, group_text(&g2)), vec![vec![aggf(&all)]], false)
+            }
+        } else if kind == 1 {
+            // ORDER BY all projected variables (a total order up to equal rows), then LIMIT
+            let proj = ["x", "a", "b"];
+            let dirs: Vec<bool> = proj.iter().map(|_| r.chance(40)).collect();
+            let mut rows: Vec<Vec<String>> = sols.iter().map(|s| proj.iter().map(|v| s.get(*v).map(|t| t.out()).unwrap_or_default()).collect()).collect();
+            // a column must be homogeneous (all numbers or all IRIs, unbound allowed) for the order to be defined alike
+            let homog = (0..3).all(|i| { let vals: Vec<&String> = rows.iter().map(|r| &r[i]).filter(|v| !v.is_empty()).collect(); vals.iter().all(|v| v.parse::<f64>().is_ok()) || vals.iter().all(|v| v.parse::<f64>().is_err()) });
+            if !homog { continue; }
+            rows.sort_by(|p, q| { for i in 0..3 { let o = cmp_vals(&p[i], &q[i]); let o = if dirs[i] { o.reverse() } else { o }; if o != std::cmp::Ordering::Equal { return o; } } std::cmp::Ordering::Equal });
+            let limit = if r.chance(60) { Some(r.below(5)) } else { None };
+            if let Some(n) = limit { rows.truncate(n); }
+            let keys: Vec<String> = proj.iter().zip(&dirs).map(|(v, d)| if *d { format!("DESC(?{})", v) } else { format!("?{}", v) }).collect();
+            (format!("SELECT ?x ?a ?b {}WHERE {} ORDER BY {}{}", from, group_text(&group), keys.join(" "), limit.map(|n| format!(" LIMIT {}", n)).unwrap_or_default()), rows, true)
+        } else {
+            let proj: Vec<&str> = VARS.iter().chain(NUMVARS.iter()).chain(["g"].iter()).cloned().collect();
+            let mut rows: Vec<Vec<String>> = sols.iter().map(|s| proj.iter().map(|v| s.get(*v).map(|t| t.out()).unwrap_or_default()).collect()).collect();
+            rows.sort();
+            (format!("SELECT {} {}WHERE {}", proj.iter().map(|v| format!("?{}", v)).collect::<Vec<_>>().join(" "), from, group_text(&group)), rows, false)
+        };
+        // the engine is loaded with the full original data; the dataset clause selects
+        if std::env::var("PROBE_SHOW").is_ok() { println!("seed {} Q {} want {}", seed, q, want.len()); }
+        let mut r2 = Rng(seed.wrapping_mul(0xD1B54A32D192ED03) | 1);
+        let full = gen_data(&mut r2);
+        let mut db = load(&full);
+        let got = std::panic::catch_unwind(std::panic::AssertUnwindSafe(|| execute_sparql_query(&q, &mut db)));
+        let mut got = match got { Ok(Ok(rows)) => rows, Ok(Err(e)) => { println!("seed {} ERROR {}\n  {}", seed, e.lines().nth(1).unwrap_or(""), q); bad += 1; continue; } Err(_) => { println!("seed {} PANIC\n  {}", seed, q); bad += 1; continue; } };
+        let mut want = want;
+        if !ordered { got.sort(); want.sort(); }
+        if got != want {
+            bad += 1;
+            println!("seed {} MISMATCH\n  {}\n  default={:?}\n  named={:?}\n  want {} rows {:?}\n  got  {} rows {:?}", seed, q,
+                full.default.iter().map(|(a, b, c)| format!("{} {} {}", a.out(), b.out(), c.out())).collect::<Vec<_>>(),
+                full.named.iter().map(|(g, t)| (g.clone(), t.iter().map(|(a, b, c)| format!("{} {} {}", a.out(), b.out(), c.out())).collect::<Vec<_>>())).collect::<Vec<_>>(),
+                want.len(), &want[..want.len().min(8)], got.len(), &got[..got.len().min(8)]);
+        }
+    }
+    println!("modifiers: checked {} queries, {} discrepancies", seeds, bad);
+}
+
+// ---- C03: random update sequences against a set-of-quads model
+type Quad = (Option<String>, Term, Term, Term);
+fn tmpl_text(t: &[(Option<String>, Slot, Slot, Slot)]) -> String {
+    let mut s = String::from("{ ");
+    for (g, a, b, c) in t {
+        match g { None => s.push_str(&format!("{} {} {} . ", a.text(), b.text(), c.text())), Some(g) => s.push_str(&format!("GRAPH <{}> {{ {} {} {} }} ", g, a.text(), b.text(), c.text())) }
+    }
+    s.push('}');
+    s
+}
+fn gen_const_term(r: &mut Rng, pos: usize) -> Term {
+    match pos { 1 => if r.chance(30) { Term::Iri("http://e/n".into()) } else { iri("p", r.below(2)) }, 2 => if r.chance(30) { Term::Num(r.below(13) as i64) } else { iri("s", r.below(4)) }, _ => iri("s", r.below(4)) }
+}
+fn gen_template(r: &mut Rng, vars: &[String], ground: bool) -> Vec<(Option<String>, Slot, Slot, Slot)> {
+    let mut out = Vec::new();
+    let n = if ground && vars.is_empty() && r.chance(50) { 4 + r.below(5) } else { 1 + r.below(3) };
+    for _ in 0..n {
+        let g = if r.chance(35) { Some(format!("http://e/g{}", r.below(3))) } else { None };
+        let mut slot = |r: &mut Rng, pos: usize| if !ground && !vars.is_empty() && r.chance(55) { Slot::Var(vars[r.below(vars.len())].clone()) } else { Slot::Const(gen_const_term(r, pos)) };
+        let (a, b, c) = (slot(r, 0), slot(r, 1), slot(r, 2));
+        out.push((g, a, b, c));
+    }
+    out
+}
+fn instantiate(t: &[(Option<String>, Slot, Slot, Slot)], sol: &Sol) -> Vec<Quad> {
+    let mut out = Vec::new();
+    for (g, a, b, c) in t {
+        let f = |s: &Slot| match s { Slot::Const(t) => Some(t.clone()), Slot::Var(v) => sol.get(v).cloned() };
+        if let (Some(a), Some(b), Some(c)) = (f(a), f(b), f(c)) {
+            // literals are not allowed as subject or predicate
+            if matches!(a, Term::Num(_)) || matches!(b, Term::Num(_)) { continue; }
+            out.push((g.clone(), a, b, c));
+        }
+    }
+    out
+}
+fn model_data(quads: &Vec<Quad>) -> Data {
+    let mut named: Vec<(String, Vec<(Term, Term, Term)>)> = Vec::new();
+    let mut default = Vec::new();
+    for (g, a, b, c) in quads {
+        match g { None => default.push((a.clone(), b.clone(), c.clone())), Some(g) => { if let Some(e) = named.iter_mut().find(|(n, _)| n == g) { e.1.push((a.clone(), b.clone(), c.clone())); } else { named.push((g.clone(), vec![(a.clone(), b.clone(), c.clone())])); } } }
+    }
+    Data { default, named }
+}
+fn dump(db: &mut SparqlDatabase) -> Vec<Vec<String>> {
+    let mut rows: Vec<Vec<String>> = execute_sparql_query("SELECT ?s ?p ?o WHERE { ?s ?p ?o }", db).unwrap().into_iter().map(|r| vec![String::new(), r[0].clone(), r[1].clone(), r[2].clone()]).collect();
+    rows.extend(execute_sparql_query("SELECT ?g ?s ?p ?o WHERE { GRAPH ?g { ?s ?p ?o } }", db).unwrap());
+    rows.sort();
+    rows
+}
+#[test]
+fn differential_updates() {
+    let seeds: u64 = std::env::var("PROBE_SEEDS").ok().and_then(|v| v.parse().ok()).unwrap_or(300);
+    let start: u64 = std::env::var("PROBE_START").ok().and_then(|v| v.parse().ok()).unwrap_or(1);
+    let mut bad = 0;
+    'seed: for seed in start..start + seeds {
+        let mut r = Rng(seed.wrapping_mul(0xA24BAED4963EE407) | 1);
+        let mut db = SparqlDatabase::new();
+        let mut model: Vec<Quad> = Vec::new();
+        let mut history = Vec::new();
+        for step in 0..10 {
+            let kind = if step < 3 { 0 } else { r.below(6) };
+            let (text, dels, inss): (String, Vec<Quad>, Vec<Quad>) = match kind {
+                0 | 1 => {
+                    let t = gen_template(&mut r, &[], true);
+                    let qs = instantiate(&t, &Sol::new());
+                    if kind == 0 { (format!("INSERT DATA {}", tmpl_text(&t)), vec![], qs) } else { (format!("DELETE DATA {}", tmpl_text(&t)), qs, vec![]) }
+                }
+                _ => {
+                    let mut where_g = Vec::new();
+                    let np = if r.chance(65) { 1 } else { 2 };
+                    for _ in 0..np {
+                        let loose = |r: &mut Rng, pos: usize, v: &str| if r.chance(75) { Slot::Var(v.to_string()) } else { Slot::Const(gen_const_term(r, pos)) };
+                        let (v1, v2, v3) = (VARS[r.below(3)], ["e", "d"][r.below(2)], VARS[r.below(4)]);
+                        where_g.push(Elem::Triple(loose(&mut r, 0, v1), loose(&mut r, 1, v2), loose(&mut r, 2, v3)));
+                    }
+                    if r.chance(30) { where_g.push(Elem::Graph(GraphRef::Named(format!("http://e/g{}", r.below(3))), vec![gen_triple(&mut r)])); }
+                    let mut vars: Vec<String> = Vec::new();
+                    fn collect(es: &[Elem], vars: &mut Vec<String>) { for e in es { match e { Elem::Triple(a, b, c) => for s in [a, b, c] { if let Slot::Var(v) = s { if !vars.contains(v) { vars.push(v.clone()); } } }, Elem::Graph(_, i) => collect(i, vars), _ => {} } } }
+                    collect(&where_g, &mut vars);
+                    let sols = eval_group(&where_g, &model_data(&model), None);
+                    let dt = gen_template(&mut r, &vars, false);
+                    let it = gen_template(&mut r, &vars, false);
+                    let mut dels = Vec::new();
+                    let mut inss = Vec::new();
+                    match kind {
+                        2 => { for s in &sols { inss.extend(instantiate(&it, s)); } (format!("INSERT {} WHERE {}", tmpl_text(&it), group_text(&where_g)), dels, inss) }
+                        3 => { for s in &sols { dels.extend(instantiate(&dt, s)); } (format!("DELETE {} WHERE {}", tmpl_text(&dt), group_text(&where_g)), dels, inss) }
+                        4 => { for s in &sols { dels.extend(instantiate(&dt, s)); inss.extend(instantiate(&it, s)); } (format!("DELETE {} INSERT {} WHERE {}", tmpl_text(&dt), tmpl_text(&it), group_text(&where_g)), dels, inss) }
+                        _ => {
+                            // DELETE WHERE shorthand: the quad block is template and pattern
+                            let pats: Vec<(Option<String>, Slot, Slot, Slot)> = where_g.iter().flat_map(|e| match e { Elem::Triple(a, b, c) => vec![(None, a.clone(), b.clone(), c.clone())], Elem::Graph(GraphRef::Named(g), inner) => inner.iter().filter_map(|e| if let Elem::Triple(a, b, c) = e { Some((Some(g.clone()), a.clone(), b.clone(), c.clone())) } else { None }).collect(), _ => vec![] }).collect();
+                            for s in &sols { dels.extend(instantiate(&pats, s)); }
+                            (format!("DELETE WHERE {}", tmpl_text(&pats)), dels, inss)
+                        }
+                    }
+                }
+            };
+            // expected effect: deletions first, then insertions; counts are quads that actually changed
+            let mut want_deleted = 0;
+            let mut dels_u = dels.clone(); dels_u.sort(); dels_u.dedup();
+            for q in &dels_u { if let Some(i) = model.iter().position(|m| m == q) { model.remove(i); want_deleted += 1; } }
+            let mut want_inserted = 0;
+            let mut inss_u = inss.clone(); inss_u.sort(); inss_u.dedup();
+            for q in &inss_u { if !model.contains(q) { model.push(q.clone()); want_inserted += 1; } }
+            history.push(text.clone());
+            if std::env::var("PROBE_SHOW").is_ok() { println!("seed {} step {} {} want +{} -{}", seed, step, text, want_inserted, want_deleted); }
+            let res = std::panic::catch_unwind(std::panic::AssertUnwindSafe(|| execute_sparql_update(&text, &mut db)));
+            let summary = match res { Ok(Ok(s)) => s, Ok(Err(e)) => { println!("seed {} step {} ERROR {}\n  {}", seed, step, e.lines().nth(1).unwrap_or(&e), text); bad += 1; continue 'seed; } Err(_) => { println!("seed {} step {} PANIC\n  {}", seed, step, text); bad += 1; continue 'seed; } };
+            let mut want: Vec<Vec<String>> = model.iter().map(|(g, a, b, c)| vec![g.clone().unwrap_or_default(), a.out(), b.out(), c.out()]).collect();
+            want.sort();
+            let got = dump(&mut db);
+            if got != want || summary.inserted_quads != want_inserted || summary.deleted_quads != want_deleted {
+                bad += 1;
+                println!("seed {} step {} MISMATCH\n  history: {:?}\n  counts want +{} -{} got +{} -{}\n  missing {:?}\n  extra {:?}", seed, step, history, want_inserted, want_deleted, summary.inserted_quads, summary.deleted_quads,
+                    want.iter().filter(|q| !got.contains(q)).collect::<Vec<_>>(), got.iter().filter(|q| !want.contains(q)).collect::<Vec<_>>());
+                continue 'seed;
+            }
+        }
+    }
+    println!("updates: checked {} sequences, {} discrepancies", seeds, bad);
 }
